@@ -33,6 +33,9 @@ def probe_file(b):
              b.function('Function', 'work', [b.param(b.index(u()), 'Memory', 'arr'), b.param(u(), None, 'q'), b.param(b.ty('Address'), None, 't')],
                         [b.fattr('visibility', 'public')], b.block(body1)),
              b.function('Function', 'helper', [], [b.fattr('visibility', 'internal')], b.block([b.expr_stmt(b.call(v('selfdestruct'), [v('owner')]))])),
+             b.function('Function', 'many', [b.param(b.index(u()), 'Memory', 'first'), b.param(b.ty('String'), 'Memory', 'second'), b.param(b.ty('DynamicBytes'), 'Memory', 'third'),
+                                             b.param(b.index(u()), 'Memory', 'fourth')],
+                        [b.fattr('visibility', 'external')], b.block([b.expr_stmt(b.bin('Assign', v('fourth'), v('first')))])),
              b.function('Function', 'kill', [], [b.fattr('visibility', 'external')], b.block([b.expr_stmt(b.call(v('selfdestruct'), [b.call(b.ty('Payable'), [v('owner')])]))])),
              b.function('Constructor', None, [], [], b.block([b.expr_stmt(b.bin('Assign', v('owner'), b.member(v('msg'), 'sender')))]))]
     return b.source_unit([b.pragma('solidity', '^0.8.16'), fam.contract_with(b, parts)])
@@ -53,7 +56,7 @@ def purity(chk, cat):
     # (executed from MIR with the regex contract) sees the real text
     b0 = sol.TreeBuilder()
     su0 = probe_file(b0)
-    text, starts = sol.print_source(su0)
+    text, starts = sol.print_source(su0, wrap_params=True)      # one parameter per line: findings on different parameters are different lines
     su = relocate(su0, starts, file_no)
     from ..engine import Adt
 
